@@ -79,6 +79,11 @@ def gen(rng):
         sc["proxy_port"] = "default"  # the proxy's own URL carries no port
     if s == "http" and rng.random() < 0.1:
         sc["prelude_refused"] = True
+    if sc["via"] == "proxy" and rng.random() < 0.4:
+        # the manager is given proxy headers (one mapping shared by all its pools), and after the URL under test a plain-http URL
+        # on another origin is requested through it: what the wire says there must be what *that* URL says
+        sc["proxy_headers"] = True
+        sc["proxy_then"] = rng.choice(["http://other.test:8080/two", "http://other.test/two?x=1"])
     if rng.random() < 0.12 and q != "":  # (urljoin drops an empty query from a Location: another URL, not this check's business)
         # the URL is reached by following a redirect from another host through the same manager: everything the wire says about the
         # second request must still be what *its* URL says
@@ -213,6 +218,8 @@ def run(sc: dict) -> Result:
             w.tags.setdefault("tls_ports", {})[80] = False
     with H.RunEnv(), H.quiet_warnings(), w:
         kw = dict(cert_reqs="CERT_NONE", timeout=3.0, retries=(2 if (sc.get("dns_fail_once") or sc.get("via_redirect_from")) else False))
+        if via == "proxy" and sc.get("proxy_headers"):
+            kw["proxy_headers"] = {"X-Proxy-Id": "p1"}
         pm = urllib3.ProxyManager("http://proxy.test" if sc.get("proxy_port") == "default" else "http://proxy.test:3128", **kw) if via == "proxy" else urllib3.PoolManager(**kw)
         outs = []
         if sc.get("prelude_refused"):
@@ -280,6 +287,22 @@ def run(sc: dict) -> Result:
                         res.bad("equivalent_urls_different_bytes", f"{reqs[0].raw_head!r} vs {reqs[1].raw_head!r}")
                     else:
                         res.probes["pair_shared_socket"] += 1
+        if via == "proxy" and sc.get("proxy_then") and outs[0][0] == "ok" and not sc.get("via_redirect_from"):
+            n_before = len(w.requests)
+            try:
+                pm.request("GET", sc["proxy_then"])
+            except (W.SimHang, W.StepLimit) as e:
+                res.bad("hang", str(e))
+            except Exception as e:
+                H.strip_tb(e)
+            later = [q for q in w.requests[n_before:] if q.method != "CONNECT"]
+            if later:
+                u2 = read_url(sc["proxy_then"])
+                got2 = read_url(later[0].target) if "://" in later[0].target else None
+                if got2 is None or (got2["scheme"], got2["host"], got2["port"]) != (u2["scheme"], u2["host"], u2["port"]):
+                    res.bad("wrong_target", f"forwarded target {later[0].target!r} for {sc['proxy_then']!r}")
+                check_host_field(later[0], u2, res)
+                res.probes["proxy_second_origin_checked"] += 1
         pm.clear()
         for k_, cond in (("https", u0["scheme"] == "https"), ("ipv6", u0["v6"]), ("ipv6_zone", bool(u0["zone"])), ("idn", "xn--" in u0["host"]), ("trailing_dot", u0["host"].endswith(".")),
                          ("userinfo", u0["userinfo"] is not None), ("fragment", u0["fragment"] is not None), ("dot_segments", "/." in sc["url"]), ("default_port_explicit", re.search(r":0*(80|443)(/|\?|#|$)", sc["url"]) is not None),
@@ -455,6 +478,11 @@ def check_sni(name, u, res):
 
 
 def shrinks(sc):
+    if sc.get("proxy_then"):
+        c = copy.deepcopy(sc)
+        del c["proxy_then"]
+        c.pop("proxy_headers", None)
+        yield c
     if sc.get("prelude_refused"):
         c = copy.deepcopy(sc)
         del c["prelude_refused"]
